@@ -368,6 +368,8 @@ func runJob3(j job) string {
 		return sencPassJob(j.data, j.cfg)
 	case "C3":
 		return pfxBoth(j.data)
+	case "G3":
+		return sgpdBoth(j.data)
 	case "E3":
 		var r string
 		mode := mp4.EncFragFileMode(j.cfg[3] - '0')
@@ -458,6 +460,10 @@ func cmdCorr3(seed uint64, n int, exh int) {
 		jobs = append(jobs, job{kind: "P3", cfg: "-", data: d})
 		metas = append(metas, "P\t"+hx.Hex(d))
 	}
+	for _, d := range genG3Inputs(r, n) {
+		jobs = append(jobs, job{kind: "G3", cfg: "-", data: d})
+		metas = append(metas, "G\t"+hx.Hex(d))
+	}
 	for _, d := range genC3Inputs(r, n) {
 		jobs = append(jobs, job{kind: "C3", cfg: "-", data: d})
 		metas = append(metas, "C\t"+hx.Hex(d))
@@ -489,6 +495,8 @@ func cmdCorr3(seed uint64, n int, exh int) {
 	for i, m := range metas {
 		if m[0] == 'P' {
 			fmt.Fprintf(out, "P\tp%d\t%s\t%s\n", i, m[2:], res[i])
+		} else if m[0] == 'G' {
+			fmt.Fprintf(out, "G\tg%d\t%s\t%s\n", i, m[2:], res[i])
 		} else if m[0] == 'M' {
 			if res[i] != "-" {
 				fmt.Fprintf(out, "M\tm%d\t%s\n", i, res[i])
@@ -579,6 +587,10 @@ func cmdSearch3(seed uint64, n int) {
 	for _, d := range genC3Inputs(r, n/40) {
 		jobs = append(jobs, job{kind: "X3", cfg: "-", data: d})
 		descs = append(descs, "pfxpair:"+hx.Hex(d))
+	}
+	for _, d := range genG3Inputs(r, n/40) {
+		jobs = append(jobs, job{kind: "X3", cfg: "-", data: d})
+		descs = append(descs, "sgpdpair:"+hx.Hex(d))
 	}
 	// file level: init segment + moof{mfhd, traf{tfhd, trun (every flag combination, 0..2 samples)[, senc]}} + mdat (compact / 16-byte header)
 	{
